@@ -121,6 +121,9 @@ pub enum Op {
     Snapshot,
     /// the clock op: `n` calls of the distributor mock's NewEpoch, one day each
     NewEpoch { n: u32 },
+    /// scripted: `gap` epochs pass (more than one claim covers), every staker with a position claims, then
+    /// for `rounds` epochs: new epoch, snapshot, every staker claims again
+    ClaimMarathon { gap: u32, rounds: u32 },
 }
 
 #[derive(Serialize, Deserialize, Clone, Debug, PartialEq)]
